@@ -29,6 +29,8 @@ import (
 	"testing"
 	"time"
 
+	"github.com/tucats/ego/internal/cli/settings"
+	"github.com/tucats/ego/internal/defs"
 	"github.com/tucats/ego/internal/language/bytecode"
 	"github.com/tucats/ego/internal/server/services"
 	"github.com/tucats/ego/internal/verifh/srvfix"
@@ -39,14 +41,23 @@ const c42BatchSize = 32
 
 // svcSpec is one generated service.
 type svcSpec struct {
-	Name   string `json:"name"` // s1..sN -> /services/verif/<name>/{{item}}/{{sub}}
+	Name   string `json:"name"` // s1..sN -> /services/verif/<name>/{{itempart}}/{{subpart}}
 	Method string `json:"method"`
 	Auth   bool   `json:"auth"`
 	Source string `json:"source"`
 	Shape  string `json:"shape"`
 }
 
-func genService(r *rand.Rand, k int) svcSpec {
+// svcOpts steers genService. Force* make the directed probe services; Avoid keeps a construct that a
+// listed finding is about out of the random stream.
+type svcOpts struct {
+	ForceNamedPointer bool
+	AvoidNamedPointer bool
+	ForceAutoImport   bool
+	AvoidAutoImport   bool
+}
+
+func genService(r *rand.Rand, k int, o svcOpts) svcSpec {
 	s := svcSpec{Name: fmt.Sprintf("s%d", k), Method: []string{"GET", "POST", "PUT"}[r.Intn(3)], Auth: r.Intn(2) == 0}
 
 	var b strings.Builder
@@ -56,10 +67,18 @@ func genService(r *rand.Rand, k int) svcSpec {
 		auth = " authenticated"
 	}
 
-	fmt.Fprintf(&b, "@endpoint %s path=\"/services/verif/%s/{{item}}/{{sub}}\" parameter=\"tag:string\",\"n:int\"%s\n\n", strings.ToLower(s.Method), s.Name, auth)
-	b.WriteString("import \"fmt\"\nimport \"http\"\nimport \"strings\"\nimport \"strconv\"\nimport \"math\"\nimport \"sort\"\n\n")
-
+	fmt.Fprintf(&b, "@endpoint %s path=\"/services/verif/%s/{{itempart}}/{{subpart}}\" parameter=\"tag:string\",\"n:int\"%s\n\n", strings.ToLower(s.Method), s.Name, auth)
 	var shape []string
+
+	// Half of the services import what they use; the other half rely on the server's auto-import
+	// (ego.compiler.import, on by default) for fmt, strings, strconv, math and sort. For those the packages
+	// reach a request served from the cache only through the symbols saved with the cached service.
+	if (r.Intn(2) == 0 || o.AvoidAutoImport) && !o.ForceAutoImport {
+		b.WriteString("import \"fmt\"\nimport \"http\"\nimport \"strings\"\nimport \"strconv\"\nimport \"math\"\nimport \"sort\"\n\n")
+	} else {
+		shape = append(shape, "auto-imported-packages")
+		b.WriteString("import \"http\"\n\n")
+	}
 
 	// helper functions and a type local to the service file
 	a, c, m := 2+r.Intn(8), 1+r.Intn(40), []int{997, 1009, 65521, 1000003}[r.Intn(4)]
@@ -67,11 +86,75 @@ func genService(r *rand.Rand, k int) svcSpec {
 	b.WriteString("type record struct {\n    tag  string\n    n    int\n    user string\n}\n\n")
 	b.WriteString("func describe(r record) string {\n    return r.tag + \"/\" + strconv.Itoa(r.n) + \"/\" + r.user\n}\n\n")
 
-	b.WriteString("func handler(req http.Request, w *http.ResponseWriter) {\n")
+	// helpers with NAMED results of pointer, struct, map and slice type, assigned piece by piece and
+	// returned by a bare return
+	namedPtr := (r.Intn(2) == 0 || o.ForceNamedPointer) && !o.AvoidNamedPointer
+	namedStruct, namedMap, namedSlice := r.Intn(2) == 0, r.Intn(2) == 0, r.Intn(2) == 0
+
+	if namedPtr || namedStruct {
+		b.WriteString("type info struct {\n    user string\n    item string\n    n    int\n}\n\n")
+	}
+
+	if namedPtr {
+		shape = append(shape, "named-result:pointer")
+		b.WriteString("func mkp(user string, item string, n int) (r *info) {\n    r.user = user\n    r.item = item\n    r.n = n\n    return\n}\n\n")
+	}
+
+	if namedStruct {
+		shape = append(shape, "named-result:struct")
+		b.WriteString("func mks(user string, item string, n int) (r info) {\n    r.user = user\n    if n % 2 == 0 {\n        r.item = item\n    }\n    r.n = n\n    return\n}\n\n")
+	}
+
+	if namedMap {
+		shape = append(shape, "named-result:map")
+		b.WriteString("func mkm(tag string, n int) (m map[string]int) {\n    m = map[string]int{}\n    m[tag] = n\n    if n % 3 == 0 {\n        m[\"third\"] = n + 1\n    }\n    return\n}\n\n")
+	}
+
+	if namedSlice {
+		shape = append(shape, "named-result:slice")
+		b.WriteString("func mkl(item string, n int) (l []string) {\n    l = append(l, item)\n    if n % 2 == 1 {\n        l = append(l, strconv.Itoa(n))\n    }\n    return\n}\n\n")
+	}
+
+	b.WriteString("func handler(req http.Request, w *http.ResponseWriter) {\n    bare := subpart + \"/\" + itempart\n")
 	// 1. copy the request into locals
 	b.WriteString("    tag := req.Parameters[\"tag\"][0]\n    n, _ := strconv.Atoi(req.Parameters[\"n\"][0])\n    user := req.Username\n    body := req.Body\n")
-	b.WriteString("    item := req.URL.Parts[\"item\"]\n    sub := req.URL.Parts[\"sub\"]\n    hdr := req.Headers[\"X-Verif-Tag\"][0]\n    method := req.Method\n    rec := record{tag: tag, n: n, user: user}\n")
+	b.WriteString("    item := req.URL.Parts[\"itempart\"]\n    sub := req.URL.Parts[\"subpart\"]\n    hdr := req.Headers[\"X-Verif-Tag\"][0]\n    method := req.Method\n    rec := record{tag: tag, n: n, user: user}\n")
 	b.WriteString("    acc := 0\n")
+
+	digestFmt, digestArgs := " bare=%s", ", bare"
+
+	if namedPtr {
+		b.WriteString("    np := mkp(user, item, n)\n")
+		digestFmt += " np=%s/%s/%d"
+		digestArgs += ", np.user, np.item, np.n"
+	}
+
+	if namedStruct {
+		b.WriteString("    ns := mks(user, item, n)\n")
+		digestFmt += " ns=%s/%s/%d"
+		digestArgs += ", ns.user, ns.item, ns.n"
+	}
+
+	if namedMap {
+		b.WriteString("    nm := mkm(tag, n)\n")
+		digestFmt += " nm=%d/%d"
+		digestArgs += ", len(nm), nm[tag]"
+	}
+
+	if namedSlice {
+		b.WriteString("    nl := mkl(item, n)\n")
+		digestFmt += " nl=%s"
+		digestArgs += ", strings.Join(nl, \"+\")"
+	}
+
+	// closures over handler locals created with := ; they are called only after the computation below
+	closures := r.Intn(3) != 0
+	if closures {
+		shape = append(shape, "closures-over-locals")
+		fmt.Fprintf(&b, "    scale := n + %d\n    calls := 0\n    weigh := func(x int) int {\n        calls = calls + 1\n        return x*scale + len(tag) + len(user)\n    }\n    label := func() string {\n        return sub + \":\" + tag + \":\" + strconv.Itoa(calls)\n    }\n", 1+r.Intn(9))
+		digestFmt += " cl=%d/%s"
+		digestArgs += ", clv, label()"
+	}
 
 	// 2. PRNG-chosen computation; loop lengths depend on n so concurrent requests are out of step
 	steps := 1 + r.Intn(4)
@@ -98,9 +181,13 @@ func genService(r *rand.Rand, k int) svcSpec {
 		}
 	}
 
+	if closures {
+		fmt.Fprintf(&b, "    clv := 0\n    for i := 0; i < n %% 4 + 1; i++ {\n        clv = clv + weigh(acc %% %d + i)\n    }\n", 50+r.Intn(50))
+	}
+
 	// 3. read the request again after the computation and answer with a digest of the locals
 	b.WriteString("    tagAgain := req.Parameters[\"tag\"][0]\n    userAgain := req.Username\n")
-	fmt.Fprintf(&b, "    digest := fmt.Sprintf(\"svc=%s method=%%s tag=%%s again=%%s user=%%s/%%s item=%%s sub=%%s hdr=%%s n=%%d acc=%%d rec=%%s bodylen=%%d body=%%s\", method, tag, tagAgain, user, userAgain, item, sub, hdr, n, acc, describe(rec), len(body), body)\n", s.Name)
+	fmt.Fprintf(&b, "    digest := fmt.Sprintf(\"svc=%s method=%%s tag=%%s again=%%s user=%%s/%%s item=%%s sub=%%s hdr=%%s n=%%d acc=%%d rec=%%s%s bodylen=%%d body=%%s\", method, tag, tagAgain, user, userAgain, item, sub, hdr, n, acc, describe(rec)%s, len(body), body)\n", s.Name, digestFmt, digestArgs)
 	b.WriteString("    w.Header().Add(\"X-Verif-Echo\", tag)\n    w.Header().Add(\"X-Verif-User\", user)\n")
 	b.WriteString("    w.WriteHeader(200 + n % 3)\n    w.Write([]byte(digest))\n}\n")
 
@@ -148,6 +235,7 @@ type c42Rec struct {
 	CacheMax   int           `json:"cache_max,omitempty"`
 	Flushed    bool          `json:"flushed,omitempty"`
 	Density    int64         `json:"density,omitempty"`
+	Opt        int           `json:"opt"` // ego.compiler.optimize for this batch (services are recompiled when it changes)
 	Seed       uint64        `json:"seed,omitempty"`
 	Requests   int           `json:"requests,omitempty"`
 	Status     map[int]int   `json:"status,omitempty"`
@@ -223,6 +311,10 @@ func genBatch(r *rand.Rand, batch int, svcs []svcSpec, forceServices int) (reqs 
 		ns = forceServices
 	}
 
+	if ns > len(svcs) {
+		ns = len(svcs)
+	}
+
 	perm := r.Perm(len(svcs))
 	chosen = perm[:ns]
 
@@ -274,7 +366,9 @@ func TestC42Worker(t *testing.T) {
 		svcFiles["services/verif/"+s.Name+".ego"] = s.Source
 	}
 
-	f, err := srvfix.Start(srvfix.Options{Arena: filepath.Join(filepath.Dir(job.Out), fmt.Sprintf("srv-%d", os.Getpid())), Services: svcFiles, PanicRecovery: false})
+	f, err := srvfix.Start(srvfix.Options{Arena: filepath.Join(filepath.Dir(job.Out), fmt.Sprintf("srv-%d", os.Getpid())), Services: svcFiles, PanicRecovery: false,
+		// the default profile of a real server (profile.RuntimeDefaults) has auto-import on
+		Settings: map[string]string{defs.AutoImportSetting: "true"}})
 	if err != nil {
 		w.put(c42Rec{Batch: job.Start, SetupError: err.Error()})
 		t.Fatalf("fixture: %v", err)
@@ -284,6 +378,7 @@ func TestC42Worker(t *testing.T) {
 	_ = rl.next() // anything written during start-up is not attributed to a batch (the parent still sees it)
 
 	perBatch := 240 * time.Second
+	lastOpt := -1
 
 	for bi := job.Start; bi < job.Batches; bi++ {
 		r := batchRand(job.Stream, bi)
@@ -319,8 +414,21 @@ func TestC42Worker(t *testing.T) {
 			os.Exit(3)
 		})
 
+		rec.Opt = r.Intn(4)
+
 		// quiescent here: no request in flight
 		services.MaxCachedEntries = rec.CacheMax
+
+		if rec.Opt != lastOpt {
+			// what `ego --optimize N` does (commands/run.go configureOptimizer); the compiled services of
+			// the previous level are dropped so this batch compiles its services at its own level
+			settings.SetDefault(defs.OptimizerSetting, strconv.Itoa(rec.Opt))
+			settings.SetDefault(defs.RegistersSetting, strconv.FormatBool(rec.Opt > 2))
+			settings.SetDefault(defs.ConstFoldSetting, strconv.FormatBool(rec.Opt > 2))
+			services.FlushServiceCache()
+
+			lastOpt = rec.Opt
+		}
 
 		// serial pass = reference
 		bytecode.VerifYieldDensity.Store(0)
@@ -428,8 +536,9 @@ func TestC42(t *testing.T) {
 	work := filepath.Join(arena, fmt.Sprintf("c42-p%d", gmp))
 	_ = os.MkdirAll(work, 0o755)
 
-	// per GOMAXPROCS part: quick 2 parts x 50 = 100 batches, thorough 5 parts x 2000 = 10 000 batches
-	total := vh.N(50, 2000)
+	// per GOMAXPROCS part: quick 2 parts x (46 random + 4 directed probe batches) = 100 batches,
+	// thorough 5 parts x 2000 = 10 000 batches
+	total := vh.N(46, 2000)
 	W := 4
 
 	if vh.Tier() == "thorough" {
@@ -455,6 +564,20 @@ func TestC42(t *testing.T) {
 	for k := range vh.KnownKeys("C42") {
 		if strings.Contains(k, "router.(*Route).") {
 			noEviction = true
+		}
+	}
+
+	// known finding: a named result of pointer type is one instance shared by all calls
+	var so svcOpts
+
+	for k := range vh.KnownKeys("C42") {
+		switch k {
+		case "response-differs:np":
+			so.AvoidNamedPointer = true
+		case "response-differs:status-500:unknown-identifier":
+			// known finding: a request that finds a just-recompiled service in the cache before its first
+			// execution has saved its symbols runs without the auto-imported packages
+			so.AvoidAutoImport = true
 		}
 	}
 
@@ -495,11 +618,47 @@ func TestC42(t *testing.T) {
 			}
 
 			for k := 1; k <= 9; k++ {
-				job.Services = append(job.Services, genService(sr, k))
+				job.Services = append(job.Services, genService(sr, k, so))
 			}
 
 			job.NoEviction = noEviction
 			shards = append(shards, &shard{job: job})
+		}
+
+		// always-run directed probe: services whose helper has a named result of POINTER type
+		{
+			sr := vh.Rand("c42-probe-np/services")
+			job := c42Job{Stream: "c42-probe-np", Batches: 2, NoEviction: noEviction}
+
+			for k := 1; k <= 2; k++ {
+				job.Services = append(job.Services, genService(sr, k, svcOpts{ForceNamedPointer: true}))
+			}
+
+			shards = append(shards, &shard{job: job})
+
+			r.Probe("probe:named-pointer-result")
+
+			if so.AvoidNamedPointer {
+				r.Note("avoid set: helpers with a named result of pointer type (known finding response-differs:np); kept under test by probe c42-probe-np")
+			}
+		}
+
+		// always-run directed probe: services that rely on auto-imported packages, cache limit 1, three services
+		{
+			sr := vh.Rand("c42-probe-autoimport/services")
+			job := c42Job{Stream: "c42-probe-autoimport", Batches: 2, EvictionProbe: true}
+
+			for k := 1; k <= 3; k++ {
+				job.Services = append(job.Services, genService(sr, k, svcOpts{ForceAutoImport: true, AvoidNamedPointer: true}))
+			}
+
+			shards = append(shards, &shard{job: job})
+
+			r.Probe("probe:auto-import-with-eviction")
+
+			if so.AvoidAutoImport {
+				r.Note("avoid set: services without explicit imports (known finding response-differs:status-500:unknown-identifier); kept under test by probe c42-probe-autoimport")
+			}
 		}
 
 		if noEviction {
@@ -508,7 +667,7 @@ func TestC42(t *testing.T) {
 			job := c42Job{Stream: "c42-probe", Batches: 2, EvictionProbe: true}
 
 			for k := 1; k <= 3; k++ {
-				job.Services = append(job.Services, genService(sr, k))
+				job.Services = append(job.Services, genService(sr, k, so))
 			}
 
 			shards = append(shards, &shard{job: job})
@@ -654,6 +813,7 @@ func TestC42(t *testing.T) {
 			r.Count(fmt.Sprintf("cache_max:%d", rc.CacheMax), 1)
 			r.Count(fmt.Sprintf("services_in_batch:%d", len(rc.Services)), 1)
 			r.Count(fmt.Sprintf("density:%d", rc.Density), 1)
+			r.Count(fmt.Sprintf("optimizer_level:%d", rc.Opt), 1)
 
 			if rc.Flushed {
 				r.Count("cache.flushed_before_concurrent_pass", 1)
@@ -677,6 +837,10 @@ func TestC42(t *testing.T) {
 			for _, mm := range rc.Mismatch {
 				key := "response-differs:" + mismatchKind(mm)
 				witness["mismatch"] = mm
+
+				if strings.HasPrefix(s.job.Stream, "c42-probe") {
+					r.Probe(key)
+				}
 
 				r.Violate(vh.Violation{Key: key, Desc: fmt.Sprintf("request %s (service %s, user %q) answered differently when served concurrently (GOMAXPROCS=%d density=%d cache_max=%d flushed=%t); foreign tags in the answer: %v",
 					mm.Req.Tag, s.job.Services[mm.Req.Svc].Name, mm.Req.User, gmp, rc.Density, rc.CacheMax, rc.Flushed, mm.Foreign),
@@ -756,18 +920,57 @@ func TestC42(t *testing.T) {
 	}
 }
 
-// mismatchKind classifies how a concurrent answer differs.
+// mismatchKind classifies how a concurrent answer differs: by the names of the digest fields that differ
+// (the body is a list of name=value words), so that a leak through one construct gets one narrow key.
 func mismatchKind(m c42Mismatch) string {
 	switch {
 	case m.Concurrent.Panic != "":
 		return "handler-panic"
-	case len(m.Foreign) > 0:
-		return "foreign-tag"
+	case m.Concurrent.Status == 500 && strings.Contains(m.Concurrent.Body, "unknown identifier: "):
+		// the handler ran without a symbol the serial run had (package, function, type)
+		return "status-500:unknown-identifier"
 	case m.Concurrent.Status != m.Serial.Status:
 		return fmt.Sprintf("status-%d-for-%d", m.Concurrent.Status, m.Serial.Status)
-	case m.Concurrent.Hdr != m.Serial.Hdr:
+	}
+
+	fields := func(body string) map[string]string {
+		out := map[string]string{}
+
+		for _, w := range strings.Fields(body) {
+			if i := strings.Index(w, "="); i > 0 {
+				out[w[:i]] = w[i+1:]
+			}
+		}
+
+		return out
+	}
+
+	a, b := fields(m.Serial.Body), fields(m.Concurrent.Body)
+
+	var diff []string
+
+	for k, v := range a {
+		if b[k] != v {
+			diff = append(diff, k)
+		}
+	}
+
+	for k := range b {
+		if _, ok := a[k]; !ok {
+			diff = append(diff, k)
+		}
+	}
+
+	sort.Strings(diff)
+
+	switch {
+	case len(diff) == 0 && m.Concurrent.Hdr != m.Serial.Hdr:
 		return "headers"
-	default:
+	case len(diff) == 0:
 		return "body"
+	case len(diff) > 3:
+		return "many-fields"
+	default:
+		return strings.Join(diff, "+")
 	}
 }
